@@ -4,6 +4,7 @@ pub mod c03;
 pub mod c04;
 pub mod c05;
 pub mod c06;
+pub mod c07;
 pub mod c10;
 pub mod c11;
 pub mod c12;
@@ -23,6 +24,7 @@ pub fn lookup(id: &str) -> Option<&'static dyn Prop> {
         "C04" => Some(&c04::C04),
         "C05" => Some(&c05::C05),
         "C06" => Some(&c06::C06),
+        "C07" => Some(&c07::C07),
         "C10" => Some(&c10::C10),
         "C11" => Some(&c11::C11),
         "C12" => Some(&c12::C12),
